@@ -41,10 +41,12 @@ const (
 	stResult                 // after result: caller already got the result
 	stResultFly              // result written by the server right before the kill
 	stSentinel               // not a probe: answered immediately
+	stLate                   // issued while the client is reconnecting, just before it is closed: must return
+	stFirst                  // issued during the very first connect: must return
 	numStages   = int(stSentinel)
 )
 
-var stageNames = [...]string{"held", "torn", "lost", "unacked", "acked", "ack-inflight", "result", "result-inflight", "sentinel"}
+var stageNames = [...]string{"held", "torn", "lost", "unacked", "acked", "ack-inflight", "result", "result-inflight", "sentinel", "late-before-close", "during-first-connect"}
 
 func (s stage) String() string { return stageNames[s] }
 func (s stage) notSent() bool  { return s == stHeld || s == stTorn || s == stLost }
@@ -87,7 +89,8 @@ type cellSpec struct {
 	K         int      `json:"in_flight"`
 	Stages    []string `json:"stages"`
 	Kill      string   `json:"kill"`       // local | remote
-	CloseMode string   `json:"close_mode"` // down | race | only
+	CloseMode string   `json:"close_mode"` // down | race | only | failing | stalled (replacement connection never ready)
+	Late      bool     `json:"invoke_just_before_close"`
 	Fresh     bool     `json:"fresh_key"`
 	stages    []stage
 }
@@ -113,6 +116,8 @@ type c29env struct {
 	stageCount map[string]int
 	// fresh requests issued after the fault that failed, by error class (not a verdict)
 	lateFail map[string]int
+	// outcomes of the "replacement never ready, then close" cells
+	notReady map[string]int
 }
 
 func (e *c29env) tick() int64 {
@@ -273,15 +278,21 @@ func (e *c29env) runCell(spec cellSpec) (undecided string) {
 	}
 	_ = storage.StoreSession(context.Background(), append([]byte(nil), boot...))
 	client := telegram.NewClient(1, "hash", telegram.Options{
-		PublicKeys:          e.keys,
-		DC:                  2,
-		DCList:              e.list,
-		Resolver:            dcs.Plain(dcs.PlainOptions{Protocol: transport.Intermediate, Dial: cnet.Dial}),
-		SessionStorage:      storage,
-		Logger:              logger,
-		ReconnectionBackoff: func() backoff.BackOff { return &backoff.ZeroBackOff{} },
-		RetryInterval:       time.Hour, // no same-connection retransmits inside a cell
-		NoUpdates:           true,
+		PublicKeys:     e.keys,
+		DC:             2,
+		DCList:         e.list,
+		Resolver:       dcs.Plain(dcs.PlainOptions{Protocol: transport.Intermediate, Dial: cnet.Dial}),
+		SessionStorage: storage,
+		Logger:         logger,
+		ReconnectionBackoff: func() backoff.BackOff {
+			if spec.CloseMode == "failing" {
+				// Dials fail: the reconnect loop must sit in a (short) backoff sleep, not spin.
+				return backoff.NewConstantBackOff(30 * time.Millisecond)
+			}
+			return &backoff.ZeroBackOff{}
+		},
+		RetryInterval: time.Hour, // no same-connection retransmits inside a cell
+		NoUpdates:     true,
 		OnConnectionState: func(s telegram.ConnectionState) {
 			if s == telegram.ConnectionStateReady {
 				readyCount.Add(1)
@@ -447,6 +458,16 @@ func (e *c29env) runCell(spec cellSpec) (undecided string) {
 			waiters++
 		}
 	}
+	late := func() {
+		if !spec.Late {
+			return
+		}
+		// A new invocation issued while the client is still reconnecting, just before it is closed.
+		p := e.newProbe(cell, stLate)
+		all, probes = append(all, p), append(probes, p)
+		e.invoke(callCtx, client, p)
+		<-p.started
+	}
 	switch {
 	case spec.After == "reconnect":
 		kill()
@@ -456,6 +477,29 @@ func (e *c29env) runCell(spec cellSpec) (undecided string) {
 		if !steer(wdSteer, func() bool { return logger.Waiting() >= waiters }) {
 			steering += "not-all-waiting;"
 		}
+		late()
+		cancelRun()
+	case spec.CloseMode == "failing":
+		// Every dial of the replacement fails: the reconnect loop alternates between a dead attempt and its backoff sleep.
+		cnet.SetFailing(true)
+		kill()
+		if !steer(wdSteer, func() bool { _, f := cnet.Stats(); return f >= 2 }) {
+			steering += "no-failed-dials;"
+		}
+		late()
+		cancelRun()
+	case spec.CloseMode == "stalled":
+		// The replacement connects, then its key exchange / initConnection never gets an answer.
+		cnet.SetStall(true)
+		kill()
+		if !steer(wdSteer, func() bool {
+			cur := cnet.Current()
+			_, sw, _ := cur.counters()
+			return cur != conn0 && sw > 0
+		}) {
+			steering += "replacement-not-stalled;"
+		}
+		late()
 		cancelRun()
 	case spec.CloseMode == "race":
 		kill()
@@ -477,17 +521,16 @@ func (e *c29env) runCell(spec cellSpec) (undecided string) {
 		// The invocation did not return within the watchdog. That alone is not a verdict;
 		// it is one only if the goroutine is parked inside invokeConn's wait although the
 		// event it can wait for has already happened (replacement reported ready / client closed).
-		state, frame, stack, ok := goroutineOf(uint64(p.uid))
-		hung[p.uid] = fmt.Sprintf("state=%q frame=%q found=%v", state, frame, ok)
-		parked := ok && strings.HasPrefix(state, "select") && strings.HasSuffix(frame, "telegram.(*Client).invokeConn")
+		frame, stack, desc := parkedIn(uint64(p.uid))
+		hung[p.uid] = desc
 		w := map[string]any{"cell": spec, "uid": p.uid, "stage": p.stage.String(), "goroutine": stack, "phase": phase, "client_log": logger.Ring()}
 		switch {
-		case parked && spec.After == "close" && runReturned:
-			c.Violate("close|invocation-parked-in-invokeConn-after-client-closed|"+phase, w)
-		case parked && spec.After == "reconnect" && replacementUp():
+		case frame != "" && spec.After == "close" && runReturned:
+			c.Violate("close|invocation-parked-in-"+frame+"-after-client-closed|"+phase, w)
+		case frame == "invokeConn" && spec.After == "reconnect" && replacementUp():
 			c.Violate("reconnect|invocation-parked-in-invokeConn-after-replacement-connection-ready|"+phase, w)
 		default:
-			undecided = "invocation did not return (" + hung[p.uid] + ")"
+			undecided = "invocation did not return (" + desc + ")"
 		}
 	}
 	if spec.After == "reconnect" {
@@ -588,6 +631,9 @@ func (e *c29env) runCell(spec cellSpec) (undecided string) {
 		}
 		c.Distinct(fmt.Sprintf("%s/%s/%s/k%d/%s/exec%d+%d", mode, spec.Kill, pr.Stage, spec.K, pr.Outcome, before, after))
 		e.mu.Lock()
+		if spec.Point == "replacement-not-ready" {
+			e.notReady[fmt.Sprintf("%s/%s/%s", spec.CloseMode, pr.Stage, pr.Outcome)]++
+		}
 		e.stageCount[pr.Stage]++
 		e.mu.Unlock()
 		if pr.Outcome == "hung" {
@@ -635,6 +681,148 @@ func (e *c29env) runCell(spec cellSpec) (undecided string) {
 	return undecided
 }
 
+// runFirstConnect: the client is closed during its very first connect (the connection never gets
+// ready: dial blocks / dials fail / connects and stalls) with an invocation already waiting, one
+// issued just before the close and one after Run returned. All of them must return.
+func (e *c29env) runFirstConnect(spec cellSpec) (undecided string) {
+	c := e.c
+	cell := &cellRun{spec: spec}
+	cnet := newChaosNet()
+	switch spec.CloseMode {
+	case "down":
+		cnet.SetDown(true)
+	case "failing":
+		cnet.SetFailing(true)
+	case "stalled":
+		cnet.SetStall(true)
+	}
+	logger := newRecLogger()
+	storage := &session.StorageMemory{}
+	_ = storage.StoreSession(context.Background(), append([]byte(nil), e.boot[0]...))
+	client := telegram.NewClient(1, "hash", telegram.Options{
+		PublicKeys: e.keys, DC: 2, DCList: e.list, SessionStorage: storage, Logger: logger, NoUpdates: true,
+		Resolver:            dcs.Plain(dcs.PlainOptions{Protocol: transport.Intermediate, Dial: cnet.Dial}),
+		ReconnectionBackoff: func() backoff.BackOff { return backoff.NewConstantBackOff(30 * time.Millisecond) },
+		RetryInterval:       time.Hour,
+	})
+	runCtx, cancelRun := context.WithCancel(context.Background())
+	callCtx, cancelCalls := context.WithCancel(context.Background())
+	runDone := make(chan struct{})
+	readyCalled := false
+	go func() {
+		defer close(runDone)
+		_ = client.Run(runCtx, func(ctx context.Context) error {
+			readyCalled = true
+			<-ctx.Done()
+			return ctx.Err()
+		})
+	}()
+	var all []*probe
+	defer func() {
+		cancelRun()
+		cnet.SetDown(false)
+		waitCh(runDone, wdLong)
+		cancelCalls()
+		for _, p := range all {
+			waitCh(p.done, 5*time.Second)
+		}
+		cnet.KillAll()
+		e.drop(all...)
+	}()
+	// The first dial has been attempted: Run has set up the client, the connection is being established.
+	if !steer(wdLong, func() bool {
+		entered, failed := cnet.Stats()
+		switch spec.CloseMode {
+		case "failing":
+			return failed >= 2
+		case "stalled":
+			if cur := cnet.Current(); cur != nil {
+				_, sw, _ := cur.counters()
+				return sw > 0
+			}
+			return false
+		}
+		return entered >= 1
+	}) {
+		return "first connect not attempted"
+	}
+	start := func(st stage) *probe {
+		p := e.newProbe(cell, st)
+		all = append(all, p)
+		e.invoke(callCtx, client, p)
+		<-p.started
+		return p
+	}
+	probes := []*probe{start(stFirst)}
+	// Let the invocation reach its wait (steering only).
+	time.Sleep(2 * time.Millisecond)
+	if spec.Late {
+		probes = append(probes, start(stLate))
+	}
+	cancelRun()
+	if !waitCh(runDone, wdLong) {
+		return "Run did not return after cancel"
+	}
+	if readyCalled {
+		return "client became ready although the network was unusable"
+	}
+	after := start(stSentinel)
+	deadline := time.Now().Add(wdShort)
+	for i, p := range append(probes, after) {
+		phase := []string{"pending", "late", "new"}[min(i, 2)]
+		if p == after {
+			phase = "new"
+		}
+		c.Eval(1)
+		if waitCh(p.done, max(time.Until(deadline), time.Second)) {
+			c.Distinct(fmt.Sprintf("first-connect-%s/%s/%s", spec.CloseMode, phase, errClass(p.err)))
+			if p.err == nil {
+				c.Violate("first-connect|invocation-succeeded-without-connection", map[string]any{"cell": spec, "phase": phase})
+			}
+			continue
+		}
+		frame, stack, desc := parkedIn(uint64(p.uid))
+		w := map[string]any{"cell": spec, "uid": p.uid, "phase": phase, "goroutine": stack, "client_log": logger.Ring()}
+		if frame != "" {
+			c.Violate("close|invocation-parked-in-"+frame+"-after-client-closed|first-connect-"+phase, w)
+		} else {
+			undecided = "invocation did not return (" + desc + ")"
+		}
+	}
+	e.mu.Lock()
+	e.stageCount[stFirst.String()]++
+	e.mu.Unlock()
+	return undecided
+}
+
+// parkedIn inspects the goroutine of a monitored invocation that did not return: two goroutine dumps,
+// one second apart, must both show it parked in a select whose innermost gotd/td frame is the same
+// waiting function (invokeConn: waiting for a replacement connection; waitSession: waiting for a
+// connection to become ready or die). Returns that function's short name, or "".
+func parkedIn(uid uint64) (frame, stack, desc string) {
+	short := func(state, f string, ok bool) string {
+		if !ok || !strings.HasPrefix(state, "select") {
+			return ""
+		}
+		switch {
+		case strings.HasSuffix(f, "telegram.(*Client).invokeConn"):
+			return "invokeConn"
+		case strings.HasSuffix(f, "manager.(*Conn).waitSession"):
+			return "waitSession"
+		}
+		return ""
+	}
+	st1, f1, _, ok1 := goroutineOf(uid)
+	time.Sleep(time.Second)
+	st2, f2, stack2, ok2 := goroutineOf(uid)
+	desc = fmt.Sprintf("state=%q/%q frame=%q/%q found=%v/%v", st1, st2, f1, f2, ok1, ok2)
+	a, b := short(st1, f1, ok1), short(st2, f2, ok2)
+	if a != "" && a == b {
+		return a, stack2, desc
+	}
+	return "", stack2, desc
+}
+
 func indexOf(xs []string, s string) int {
 	for i, x := range xs {
 		if x == s {
@@ -647,17 +835,17 @@ func indexOf(xs []string, s string) int {
 func runC29(c *mon.Ctx) {
 	c.Rule("fault table {before send (write held / frame torn / bytes lost), after send (server executed, silent), after ack (ack consumed by the client, confirmed through the client's own logger), " +
 		"after result (caller returned)} x {reconnect, client close} x in-flight 1..3, enumerated completely for request 0 of every cell; the other in-flight requests take seeded stages incl. " +
-		"ack/result written right before the kill (either outcome allowed); variations: local socket close vs server-side disconnect, close after kill with network down / racing the reconnect / without kill, " +
+		"ack/result written right before the kill (either outcome allowed); variations: local socket close vs server-side disconnect, close after kill with network down / racing the reconnect / without kill; plus 'replacement never ready' cells (dial blocks / dials fail and the loop sits in backoff / connects and stalls) and close during the very first connect, each with a pending request, an invocation just before the close and one after Run returned, " +
 		"shared vs own restored key (all key exchanges happen serially before the table). Real telegram.Client over loopback TCP against tgtest; server handler logs every execution by the unique user id in users.getUsers. " +
 		"evaluation = one monitored request; distinct = (fault mode, kill side, stage, in-flight, caller outcome, server executions before+after fault)")
 	c.Assume("tgtest server is a faithful enough MTProto peer: it never acks or answers by itself for probe requests; harness dedupes a retransmit of the same msg_id in the same server session as a real server does")
 	c.Assume("'ack consumed' is read from the client's rpc logger record 'Acknowledged, waiting for result' (public Options.Logger boundary); without it the request is classed ack-inflight and nothing is demanded")
-	c.Assume("a hang becomes a violation only if the goroutine is parked in invokeConn's select after the awaited event (replacement connection proven up / Run returned) has happened; other watchdog expiries are inconclusive")
+	c.Assume("a hang becomes a violation only if two goroutine dumps one second apart show the invocation parked in invokeConn's select (or, after Run returned, in manager.Conn.waitSession's select) after the awaited event (replacement connection reported ready / Run returned) has happened; other watchdog expiries are inconclusive")
 
 	bg, cancel := context.WithCancel(context.Background())
 	defer cancel()
 	cl := cluster.NewCluster(cluster.Options{Protocol: transport.Intermediate})
-	env := &c29env{c: c, probes: map[int64]*probe{}, nextUID: 1000, stageCount: map[string]int{}, lateFail: map[string]int{}}
+	env := &c29env{c: c, probes: map[int64]*probe{}, nextUID: 1000, stageCount: map[string]int{}, lateFail: map[string]int{}, notReady: map[string]int{}}
 	srv, disp := cl.DC(2, "dc2")
 	env.srv = srv
 	disp.HandleFunc(tg.UsersGetUsersRequestTypeID, env.onGetUsers)
@@ -750,7 +938,26 @@ func runC29(c *mon.Ctx) {
 			}
 		}
 	}
+	// Close while the replacement connection is not ready: {dial blocks, dials fail (loop in backoff), connects and stalls}
+	// x pending request kinds x {with, without an invocation just before the close}; and close during the very first connect.
+	nTable := len(cells)
+	for v := 0; v < c.N(1, 12); v++ {
+		for _, cm := range []string{"down", "failing", "stalled"} {
+			for _, late := range []bool{false, true} {
+				for _, stages := range [][]stage{{stUnacked}, {stLost, stUnacked}, {stAcked, stUnacked}} {
+					sp := cellSpec{Idx: len(cells), Point: "replacement-not-ready", After: "close", K: len(stages), Kill: []string{"local", "remote"}[(v+len(stages))%2],
+						CloseMode: cm, Late: late, stages: stages}
+					for _, st := range stages {
+						sp.Stages = append(sp.Stages, st.String())
+					}
+					cells = append(cells, sp)
+				}
+				cells = append(cells, cellSpec{Idx: len(cells), Point: "first-connect", After: "close", K: 1, CloseMode: cm, Late: late, Stages: []string{stFirst.String()}})
+			}
+		}
+	}
 	c.Set("cells", len(cells))
+	c.Set("cells_fault_table", nTable)
 	c.Exhaustive(true)
 
 	var (
@@ -765,7 +972,12 @@ func runC29(c *mon.Ctx) {
 		go func() {
 			defer wg.Done()
 			for sp := range work {
-				why := env.runCell(sp)
+				var why string
+				if sp.Point == "first-connect" {
+					why = env.runFirstConnect(sp)
+				} else {
+					why = env.runCell(sp)
+				}
 				umu.Lock()
 				if why != "" {
 					undecided[why]++
@@ -790,6 +1002,7 @@ func runC29(c *mon.Ctx) {
 	}
 	env.mu.Lock()
 	c.Set("requests_by_stage", env.stageCount)
+	c.Set("close_with_replacement_not_ready_outcomes", env.notReady)
 	c.Set("fresh_requests_failed_between_fault_and_replacement", env.lateFail)
 	for _, need := range []string{"held", "torn", "lost", "unacked", "acked", "result"} {
 		if env.stageCount[need] == 0 {
